@@ -40,7 +40,6 @@ package transaction
 //@   requires ended:  !world.reg[txId]
 
 // handed: content ids whose versions have been handed to the cleaner for deletion
-//@ ghost field (world).handed set[string]
 //@ iface cleaner.DeleteFilesAsync
 //@   params ctx, files
 //@   modifies world.handed
